@@ -338,6 +338,7 @@ func runC19(c *Ctx) {
 			c.Require("C19.R4 success-clears-temp", FuncKey(fsync), p.InstrPos(s.Call), "saved originals are discarded only after every downloaded block was applied", true, "")
 		}
 		c.MinInstances("C19.R4 success-clears-temp", len(CallsIn(fsync, "(*blockchain.DataAccess).ClearTempBlocks")), 1)
+		checkParkedBlocksSurvive(c, "C19.R4 parked-blocks-survive")
 
 		// restoreBlocks shape
 		del := CallsIn(restore, "(*consensus/sync.fastSyncer).deleteTillCommonBlock")
@@ -628,4 +629,48 @@ func checkCacheIndexesCoUpdated(c *Ctx, rule string) {
 		}
 	}
 	c.MinInstances(rule, n, 2)
+}
+
+// checkParkedBlocksSurvive — blocks removed with saveTemp=true are the only copy of the node's
+// own branch until they are re-applied: the temp table may be emptied only (a) by the sync
+// function itself on its success path, or (b) nowhere on the way from restoreBlocks to the
+// read of the saved blocks. A clear inside the revert helper (which restoreBlocks reuses)
+// empties the table right before it is read: nothing is restored and the call still succeeds.
+func checkParkedBlocksSurvive(c *Ctx, rule string) {
+	p := c.P
+	restore := c.Anchor("pkg/consensus/sync.(*fastSyncer).restoreBlocks")
+	if restore == nil {
+		return
+	}
+	const clear = "(*blockchain.DataAccess).ClearTempBlocks"
+	get := CallsIn(restore, "(*blockchain.DataAccess).GetTempBlocks")
+	n := 0
+	seen := map[*ssa.Function]bool{}
+	var walk func(fn *ssa.Function, chain string, depth int)
+	walk = func(fn *ssa.Function, chain string, depth int) {
+		if fn == nil || seen[fn] || depth > 4 || len(fn.Blocks) == 0 || !IsProd(fn) {
+			return
+		}
+		seen[fn] = true
+		for _, call := range AllCalls(fn) {
+			name := CalleeName(call.Common())
+			if name == clear {
+				n++
+				// inside restoreBlocks itself a clear is fine once the saved blocks were read and re-applied
+				after := fn == restore && len(get) == 1 && instrDominates(get[0].Call, call)
+				c.Require(rule, chain+" ⇒ ClearTempBlocks", p.InstrPos(call), "nothing on the way from restoreBlocks to reading the saved blocks empties the temp table", after, "reached via "+chain)
+				continue
+			}
+			if g := call.Common().StaticCallee(); g != nil && strings.HasPrefix(FuncKey(g), "pkg/consensus/sync.") {
+				walk(g, chain+" → "+FuncName(g), depth+1)
+			}
+		}
+	}
+	walk(restore, FuncName(restore), 0)
+	if n == 0 {
+		// nothing reachable from restoreBlocks clears the table: that is the obligation
+		n++
+		c.Require(rule, FuncName(restore)+": no clear before the saved blocks are read", p.Pos(restore.Pos()), "nothing on the way from restoreBlocks to reading the saved blocks empties the temp table", true, fmt.Sprintf("%d functions walked", len(seen)))
+	}
+	c.MinInstances(rule, n, 1)
 }
